@@ -128,7 +128,15 @@ class DaskSim:
         log_tasks: bool = True,
         tag: str = "",
         real: Optional[str] = None,
+        rendezvous: Optional[Callable[[Any], bool]] = None,
     ):
+        # rendezvous(label) -> True for park labels of the code region in which concurrent tasks should meet:
+        # while exactly one worker is parked there and anything else can run, that worker is held back (bounded),
+        # so that a second worker arrives while the first is still inside - first writes through a shared sink
+        # overlap in a good share of the runs instead of once in a thousand
+        self.rendezvous = rendezvous
+        self.rendezvous_budget = 300
+        self.rendezvous_met = 0
         self.tag = tag
         self.real = real  # "sync" / "threads": hand the graph to dask's own scheduler (conformance self-test only)
         self.ch = chooser
@@ -294,6 +302,13 @@ class DaskSim:
                     if not events and stalled:
                         stalled.clear()
                         continue
+                    if self.rendezvous is not None and self.rendezvous_budget > 0:
+                        inside = [e[1] for e in events if e[0] == "run" and self.rendezvous(kernel.threads[e[1]].label)]
+                        if len(inside) == 1 and len(events) > 1:
+                            self.rendezvous_budget -= 1
+                            events = [e for e in events if not (e[0] == "run" and e[1] == inside[0])]
+                        elif len(inside) >= 2:
+                            self.rendezvous_met += 1
                 if not events:
                     raise Deadlock("all workers blocked: " + ", ".join(f"{n}@{kernel.threads[n].label}" for n in running) if kernel else "no events")
                 for n in list(stalled):
